@@ -935,6 +935,9 @@ def run_c14(ctx):
                               'behaviours replayed with %d byte-length choices each; every one of %d byte lengths of %d entries read back; '
                               '%d random histories; %d logged events judged by TLC' % (
                                   len(behs), len(witness_behs), sweeps, nbytes, n_payloads, nhist, nev + nev2))
+    # extra module: `valjean run` from the job file to the files on disk (Pipeline.tla, observations only, see conf_pipeline.py)
+    import conf_pipeline
+    conf_pipeline.run(ctx, tlc.workdir('c14pipeline'))
 
 
 def _digest(ctx, verdict, worlds, ntasks):
